@@ -1,1 +1,8 @@
 // hook file for ntp-proto/src/algorithm/kalman/source.rs: declares the per-property harness modules
+#[cfg(any(verif_all, verif_c06))]
+#[path = "/verif/harness/ntp-proto/c06.rs"]
+mod c06;
+// --- builder S2: C10, poll-desire state machine
+#[cfg(any(verif_all, verif_c10))]
+#[path = "/verif/harness/ntp-proto/c10_desire.rs"]
+mod c10_desire;
